@@ -386,6 +386,10 @@ func c12(r *core.Run) {
 					// marker write is last
 					last, _ := core.PathFree(set, nil, func(in ssa.Instruction) bool { return isWrite(in) })
 					r.Check(last, "I1", core.FuncName(cl), "marker-written-last", p.InstrPos(set), "no write follows the marker write", "a write follows the marker write")
+					c12MarkerOnEverySuccess(r, cl, set, func(in ssa.Instruction) bool {
+						c, ok := in.(ssa.CallInstruction)
+						return ok && (isWrite(in) || core.IsDynamic(c))
+					})
 					// existing ids skipped: setValue dominated by a Get(...) err!=nil edge other than the marker's
 					skipOK := false
 					for _, c := range core.Calls(cl) {
@@ -1147,6 +1151,8 @@ func c14(r *core.Run) {
 	r.Rule("V1", "every query request gets its own answer (shared with C15.C1 / C16.V1): no closure created in a loop and handed to the per-group queue captures a variable the loop re-assigns (the module's go directive gives loop variables one instance per loop); the listener of a query event would otherwise hand every pending request's closure the latest message", 1)
 	r.Rule("N6", "the change is asked about the query the result is fetched with: in the query handler, wherever a request-handler callback translates the request into the store's query, QueryChange.Events receives that translated query (through phis), not the raw request query", 1)
 	c14EventsGetTheStoreQuery(r, "N6")
+	r.Rule("N7", "no mutation without its before-value (shared with C11.E3): in the transaction bodies of badgerstore's Update and Delete no database write is reachable on the edge where the read of the stored value reported an error - a delete that carries on with before == nil leaves the index entry of the old value in place and announces nothing", 2)
+	c11ReadErrorAborts(r, "N7")
 	r.Rule("N5", "an empty key is a key: a query is affected by a value whose index key is empty but not nil exactly like by any other value - 'the value does not exist / is not indexed' is decided by nil tests, never by the length of a key", 1)
 	c13KeyPresenceByNil(r, "N5", rel)
 	r.Rule("N4", "no query change without a mutation (shared with C12.I2): Init announces as created only the seeds it wrote; a seed skipped because its id already holds a value would otherwise run the query-change callbacks for a value that was never stored, index it next to the real one and report queries on the phantom key as affected", 1)
@@ -2590,6 +2596,7 @@ func c12InitUnit(r *core.Run, cl *ssa.Function, rel string) bool {
 	r.Check(gated, "I1", fname, "found-edge-writes-nothing", p.InstrPos(get), "every write and callback lies behind the marker-not-found edge", "the already-initialised outcome does not gate the seeding: seeds can be written (or callbacks run) although the marker exists")
 	last, _ := core.PathFree(set, nil, func(in ssa.Instruction) bool { return isSeeding(in) })
 	r.Check(last, "I1", fname, "marker-written-last", p.InstrPos(set), "no write follows the marker write", "a write follows the marker write")
+	c12MarkerOnEverySuccess(r, cl, set, isSeeding)
 	// existing ids skipped: every other write in the unit lies behind a failed read of its key
 	skipOK, n := true, 0
 	for _, h := range p.Helpers(cl) {
@@ -3425,4 +3432,78 @@ func c13PrefixInsideKey(r *core.Run, rule, rel string) {
 	if n == 0 {
 		r.Bad(rule, core.FuncName(fc), "id-taken-only-when-the-prefix-ends-before-the-separator", p.Pos(fc.Pos()), "no result append next to a separator search found (rule went vacuous)")
 	}
+}
+
+// c12MarkerOnEverySuccess: once the seeding part of Init's transaction body has
+// been entered (the first seed callback or write), the body succeeds only
+// through the write of the marker: every return reachable from a seeding
+// instruction yields the marker write's own result or an error that was tested
+// non-nil. A "nothing was created, done" return leaves the store unmarked, and
+// the next Init seeds again - resurrecting seeds deleted in between.
+func c12MarkerOnEverySuccess(r *core.Run, cl *ssa.Function, set ssa.Instruction, isSeeding func(ssa.Instruction) bool) {
+	p := r.P
+	after := map[*ssa.BasicBlock]bool{}
+	var walk func(b *ssa.BasicBlock)
+	walk = func(b *ssa.BasicBlock) {
+		if after[b] {
+			return
+		}
+		after[b] = true
+		for _, s := range b.Succs {
+			walk(s)
+		}
+	}
+	sameBlock := map[*ssa.BasicBlock]bool{}
+	for _, b := range cl.Blocks {
+		for _, in := range b.Instrs {
+			if in != set && isSeeding(in) {
+				sameBlock[b] = true
+				for _, s := range b.Succs {
+					walk(s)
+				}
+			}
+		}
+	}
+	setVal, _ := set.(ssa.Value)
+	bad := ""
+	n := 0
+	for _, ret := range core.Returns(cl) {
+		if len(ret.Results) != 1 || !(after[ret.Block()] || sameBlock[ret.Block()]) {
+			continue
+		}
+		n++
+		for _, src := range phiSources(ret.Results[0]) {
+			v := core.Strip(src.V)
+			if setVal != nil && (v == setVal) {
+				continue
+			}
+			if ex, ok := v.(*ssa.Extract); ok && setVal != nil && ex.Tuple == setVal {
+				continue
+			}
+			if c, ok := v.(*ssa.Const); !ok || !c.IsNil() {
+				nonNil := false
+				for _, ed := range srcEdges(ret, src) {
+					ci := core.Cond(ed.If.Cond)
+					if ci.Kind != "nilcmp" || !(core.Strip(ci.X) == v || sameVariable(core.Strip(ci.X), v)) {
+						continue
+					}
+					truth := ed.Succ == 0
+					if ci.Negate {
+						truth = !truth
+					}
+					if (ci.Op == token.NEQ) == truth {
+						nonNil = true
+					}
+				}
+				if nonNil {
+					continue
+				}
+			}
+			bad = p.InstrPos(ret)
+		}
+	}
+	if n == 0 {
+		return
+	}
+	r.Check(bad == "", "I1", core.FuncName(cl), "success-after-seeding-only-through-the-marker-write", p.InstrPos(set), "every return behind the seeding yields the marker write's result or a tested error", "the transaction body can succeed (return at "+bad+") after the seeding part was entered without writing the marker: the store stays unmarked, the next Init takes the first-run path again and re-creates seeds that were deleted in the meantime")
 }
